@@ -178,6 +178,7 @@ class Rec:
         self.distinct = set()
         self.extra = {}
         self.validations = []      # requests for pristine shim validation
+        self.pchecks = []          # obligations decided in the pristine interpreter (they need the real numeric solver)
 
     # -- low level
     def _check(self, assume, extra, timeout_ms=None):
@@ -341,7 +342,7 @@ class Rec:
                     vacuity_bad=self.vacuity_bad, paths=self.paths, rejected_paths=self.rejected_paths,
                     solver_s=self.solver_s, samples=self.samples, notes=self.notes, known_hits=self.known_hits,
                     subtolerance=self.subtolerance, functions=sorted(_lift.TRACED), extra=self.extra,
-                    validations=self.validations, distinct=len(self.distinct))
+                    validations=self.validations, pchecks=self.pchecks, distinct=len(self.distinct))
 
 
 def fixed_env_constraints(env_exact):
